@@ -81,7 +81,7 @@ def mk_node(name, comps=(), nss=(), **props):
     return s
 
 
-VALS = {'labels': [Labels(vlan='100'), Labels(vlan='200', local_name='p')],
+VALS = {'labels': [Labels(vlan='100'), Labels(vlan='200', local_name='p'), Labels(vlan='100', local_name='added-field')],
         'capacities': [Capacities(bw=10), Capacities(bw=25, unit=1)],
         'user_data': [{'k': 1}, {'k': 2, 'z': [1]}]}
 
@@ -165,7 +165,7 @@ def edits_for(root):
     ed = [('noop',)]
     for path, s in elements(root):
         for prop in ('labels', 'capacities', 'user_data'):
-            for i in (0, 1, None):
+            for i in (0, 1, None) + ((2,) if prop == 'labels' else ()):      # labels #2 only ADDS a field to labels #0
                 ed.append(('set', path, prop, i))
         ed.append(('equal_ud', path))
         if isinstance(s, NodeSliver):
@@ -475,7 +475,7 @@ def _thin(single):
     """triples: keep structural edits and one value per (element, property)"""
     out = []
     for e in single:
-        if e[0] == 'set' and e[3] != 1:
+        if e[0] == 'set' and e[3] not in (1, 2):
             continue
         out.append(e)
     return out
